@@ -301,3 +301,97 @@ def solo_families(kind, kt, vt):
             sc = base("S-%s-vs-%s/%s[%s]" % (wn, rn, kind, kt), kind, kt, vt, pin, pre, [w, r], ["k1", "k2", "k3"], {"kind": "solo", "writer": 1, "reader": 2, "parkat": -1, "ownmax": 200})
             fam.append(sc)
     return fam
+
+
+def random_map_scenarios(kind, kt, vt, rng, n, runs, seed):
+    """Seeded random small concurrent programs: 3-4 threads x 1-3 calls over 3-5 keys whose placement (same bucket / same
+    bucket-local hash / different buckets) is drawn at random, on a table that is empty, near the grow threshold (full
+    focus chain + ballast) or near the shrink threshold."""
+    slots, thr = geom(kind)
+    out = []
+    ops = ["Load", "Load", "Store", "Store", "LoadOrStore", "LoadAndStore", "LoadOrCompute", "Compute", "LoadAndDelete", "Delete", "Range", "Clear", "Size"]
+    for i in range(n):
+        v = Vals(1000 + i * 50)
+        nk = rng.choice([2, 3, 4, 5])
+        names = ["k%d" % (j + 1) for j in range(nk)]
+        keys = {k: (rng.choice([FOCUS, FOCUS, FOCUS2, OTHER]), rng.choice([1, 1, 2, 3])) for k in names}
+        shape = rng.choice(["small", "small", "grow", "shrink", "chain"])
+        pre = []
+        if shape == "grow":
+            fullk = {"k%d" % (90 + j): (FOCUS, 10 + j) for j in range(slots)}
+            keys.update(fullk)
+            pre = [S("BulkStore", lo=1, hi=thr + 1)] + [S("Store", k, v()) for k in sorted(fullk)]
+        elif shape == "shrink":
+            pre = [S("BulkStore", lo=1, hi=thr + slots + 2)] + [S("BulkDelete", lo=1, hi=thr + slots + 2)]
+        elif shape == "chain":
+            fullk = {"k%d" % (90 + j): (FOCUS, 10 + j) for j in range(2 * slots)}
+            keys.update(fullk)
+            pre = [S("Store", k, v()) for k in sorted(fullk)]
+        for k in names:
+            if rng.random() < 0.5:
+                pre.append(S("Store", k, v()))
+        threads = []
+        for t in range(rng.choice([2, 3, 3, 4])):
+            calls = []
+            for _ in range(rng.choice([1, 2, 2, 3])):
+                op = rng.choice(ops)
+                k = rng.choice(names)
+                if op in ("Load", "LoadAndDelete", "Delete"):
+                    calls.append(S(op, k))
+                elif op == "Compute":
+                    calls.append(S(op, k, v(), fn=rng.choice(["set", "del", "toggle", "setifabsent", "keep", "delret"])))
+                elif op == "Range":
+                    calls.append(S(op, k=rng.choice(names), v=v(), fn=rng.choice(["all", "all", "stop:1", "del", "upd", "ins"])))
+                elif op in ("Clear", "Size"):
+                    calls.append(S(op))
+                else:
+                    calls.append(S(op, k, v()))
+            threads.append(calls)
+        sc = base("RND%d-%s/%s[%s]" % (i, shape, kind, kt), kind, kt, vt, pin_of(keys), pre, threads, sorted(names), {"kind": "pct", "depth": 3, "runs": runs, "seed": seed + i})
+        out.append(sc)
+    return out
+
+
+def random_cache_scenarios(kind, kt, vt, rng, n, runs, seed):
+    out = []
+    ops = ["Get", "Get", "Set", "Set", "GetOrSet", "GetAndSet", "GetAndRefresh", "GetOrCompute", "Compute", "GetAndDelete", "Delete", "DeleteExpired", "DeleteExpired",
+           "Range", "Items", "Clear", "Count", "GetWithTTL", "GetWithExpiration", "SetEvictedCallback"]
+    for i in range(n):
+        v = Vals(2000 + i * 50)
+        nk = rng.choice([2, 3, 4])
+        names = ["k%d" % (j + 1) for j in range(nk)]
+        keys = {k: (rng.choice([FOCUS, FOCUS, OTHER]), rng.choice([1, 1, 2])) for k in names}
+        pre = []
+        for k in names:
+            r = rng.random()
+            if r < 0.35:
+                pre.append(S("Set", k, v(), d=5))      # expired after the tick
+            elif r < 0.7:
+                pre.append(S("Set", k, v(), d=rng.choice([50, -2000000000])))
+        pre.append(S("Tick", d=6))
+        threads = []
+        for t in range(rng.choice([2, 3, 3])):
+            calls = []
+            for _ in range(rng.choice([1, 2, 2, 3])):
+                op = rng.choice(ops)
+                k = rng.choice(names)
+                d = rng.choice([50, 100, -2000000000, -1000000000, 0])
+                if op in ("Get", "GetAndDelete", "Delete", "GetWithTTL", "GetWithExpiration"):
+                    calls.append(S(op, k))
+                elif op == "GetAndRefresh":
+                    calls.append(S(op, k, d=d))
+                elif op == "Compute":
+                    calls.append(S(op, k, v(), fn=rng.choice(["set", "del", "toggle", "setifabsent", "keep", "delret"]), d=d))
+                elif op == "Range":
+                    calls.append(S(op, k=rng.choice(names), v=v(), fn=rng.choice(["all", "all", "stop:1", "upd", "load"])))
+                elif op in ("Clear", "Count", "DeleteExpired", "Items"):
+                    calls.append(S(op))
+                elif op == "SetEvictedCallback":
+                    calls.append(S(op, fn=rng.choice(["cb2", "nil", "cb1"])))
+                else:
+                    calls.append(S(op, k, v(), d=d))
+            threads.append(calls)
+        sc = base("RNDC%d/%s[%s]" % (i, kind, kt), kind, kt, vt, pin_of(keys), pre, threads, sorted(names), {"kind": "pct", "depth": 3, "runs": runs, "seed": seed + i})
+        sc["cache"]["cb"] = rng.choice(["cb1", "cb1", ""])
+        out.append(sc)
+    return out
